@@ -32,6 +32,9 @@ def run_spec(spec, props=("C20",)):
         for times in spec["times"]:
             n = len(times)
             s1 = [10 + i for i in range(n)]; s2 = [50 - 3 * i for i in range(n)]; s3 = [7 * i % 5 + 100 for i in range(n)]
+            if spec.get("fractional"):
+                # fractional observations on an integer-typed report grid (prevalences, ODE output): values are not truncated
+                s1 = [0.25 + 0.5 * i for i in range(n)]; s2 = [0.875 - 0.125 * i for i in range(n)]; s3 = [(7 * i % 5) / 4.0 + 0.5 for i in range(n)]
             for L in range(1, spec["maxlen"] + 1):
                 for rep in nondecreasing(alpha + spec.get("beyond", []), L):
                     if rep[0] < times[0]:
@@ -183,6 +186,7 @@ def specs(tier):
     for i in range(0, len(alltimes), 8):
         out.append(dict(kind="subsample", alphabet=alpha, beyond=[5] , times=alltimes[i:i + 8], maxlen=4 if thorough else 3))
     out.append(dict(kind="subsample", alphabet=[0.5, 1.5, 2.5], beyond=[], times=[t for t in alltimes if len(t) >= 2][:40], maxlen=3))
+    out.append(dict(kind="subsample", alphabet=alpha, beyond=[5], times=[t for t in alltimes if len(t) >= 2][:60], maxlen=3, fractional=True))
     out.append(dict(kind="time_shift", maxlen=4 if not thorough else 5, values=[0, 1, 2], thresholds=[1, 2, 0.5]))
     # values a hair below the threshold have not reached it (no tolerance in "reaches"); large counts
     out.append(dict(kind="time_shift", maxlen=3, values=[0, 99999, 100000, 100001], thresholds=[100000]))
